@@ -364,8 +364,12 @@ impl MqttShared {
                 } else {
                     // publisher is gone, complete the exchange
                     let pkt = codec::Packet::PublishRelease { packet_id: idx };
-                    let _ = self.io.encode(Encoded::Packet(pkt), &self.codec);
-                    queues.inflight.push_back((idx, None, AckType::Complete));
+                    if self.io.encode(Encoded::Packet(pkt), &self.codec).is_ok() {
+                        queues.inflight.push_back((idx, None, AckType::Complete));
+                    } else {
+                        // PUBREL is not sent, PUBCOMP is not going to arrive
+                        queues.received.insert(idx);
+                    }
                 }
                 Ok(())
             } else if matches!(pkt, Ack::Complete(_)) {
@@ -432,6 +436,15 @@ impl MqttShared {
             queues.inflight.push_back((id, Some(tx), ack));
             queues.inflight_ids.insert(id);
             Ok(rx)
+        }
+    }
+
+    /// Unregister response channel, request has not been sent
+    pub(super) fn cancel_response(&self, id: num::NonZeroU16) {
+        let mut queues = self.queues.borrow_mut();
+        if queues.inflight.back().is_some_and(|item| item.0 == id) {
+            queues.inflight.pop_back();
+            queues.inflight_ids.remove(&id);
         }
     }
 
@@ -543,7 +556,11 @@ impl MqttShared {
                 queues.inflight.push_back((id, Some(tx), AckType::Complete));
                 Ok(rx)
             }
-            Err(e) => Err(SendPacketError::Encode(e)),
+            Err(e) => {
+                // PUBREL is not sent, packet is still waiting for release
+                queues.received.insert(id);
+                Err(SendPacketError::Encode(e))
+            }
         }
     }
 }
